@@ -614,10 +614,21 @@ def run_iot(ctx):
             spec_scns.append(dict(id=len(spec_scns) + 1, due=s["due"], arm=s["arm"], on=s["on"], stop=s["stop"], stopAt=s["stopAt"]))
     sp = os.path.join(ctx.work, "iot_spec_scenarios.json")
     json.dump(spec_scns, open(sp, "w"))
-    vlib.model_check(ctx, "timer", "IoTimersMC", env={"SCENARIOS": sp, "FREETICK": "0", "MUT": "none"}, timeout=2400)
+    obsf = os.path.join(ctx.work, "iot_spec_obs.ndjson")
+    vlib.model_check(ctx, "timer", "IoTimersMC", cfg="IoTimersObs.cfg", env={"SCENARIOS": sp, "FREETICK": "0", "MUT": "none", "OBS": obsf}, workers=1, timeout=2400)
+    # completion channels the specification admits at the end of each scenario (per op: value | done | none)
+    spec_obs = {}
+    for l in open(obsf):
+        if l.strip():
+            o = json.loads(l)
+            spec_obs.setdefault(o["scn"], set()).add(tuple(o["ch"]))
+    spec_id = {}
+    for s in scns:
+        k = json.dumps([s["due"], s["arm"], s["on"], s["stop"], s["stopAt"]])
+        spec_id[s["id"]] = [i + 1 for i, q in enumerate(spec_scns) if json.dumps([q["due"], q["arm"], q["on"], q["stop"], q["stopAt"]]) == k][0]
     spf = os.path.join(ctx.work, "iot_spec_scenarios_free.json")
     json.dump(spec_scns[:(10 if ctx.quick else 120)], open(spf, "w"))
-    vlib.model_check(ctx, "timer", "IoTimersMC", cfg="IoTimersFree.cfg", env={"SCENARIOS": spf, "FREETICK": "2", "MUT": "none"}, timeout=2400)
+    vlib.model_check(ctx, "timer", "IoTimersMC", cfg="IoTimersFree.cfg", env={"SCENARIOS": spf, "FREETICK": "2", "MUT": "none", "OBS": ""}, timeout=2400)
     exe = vlib.build(ctx, "timer_iot", ["engines/timer/driver_iot.cpp"],
                      lib=["inplace_stop_token.cpp", "async_stack.cpp", "exception.cpp"] + vlib.LIB_LINUX)
     t0 = time.time()
@@ -634,7 +645,8 @@ def run_iot(ctx):
             _death_violation(rep, sub, "realtime", d, sc, dict(context=(sc or {}).get("ctx"), tag=(sc or {}).get("tag")))
     rep.evaluations += nex
     merged = os.path.join(ctx.work, "iot_log.ndjson")
-    kept = 0
+    kept = nodrift = 0
+    byid = {x["id"]: x for x in scns}
     with open(merged, "w") as f:
         for r in res:
             for x, lines in vlib.split_executions(r[0]):
@@ -642,6 +654,23 @@ def run_iot(ctx):
                     continue
                 f.writelines(lines)
                 kept += 1
+                # observation: the channels of the operations whose fate the scenario decides (not the far timers the
+                # driver cancels during clean-up) must be one of the outcomes the specification admits
+                evs = [json.loads(l) for l in lines]
+                sc = byid.get(evs[0].get("scn"))
+                if sc is None:
+                    continue
+                got = {e["op"]: e["ch"] for e in evs if e.get("e") == "Fire"}
+                stopped = {sc["stop"]} | {a[1] for prog in sc["on"] for a in prog if a[0] == "stop"}
+                decided = [i for i in range(1, len(sc["due"]) + 1) if sc["due"][i - 1] < 9 or i in stopped]
+                admits = spec_obs.get(spec_id[sc["id"]], set())
+                if any(all(o[i - 1] == got.get(i, "none") for i in decided) for o in admits):
+                    nodrift += 1
+                else:
+                    rep.drift += 1
+                    if rep.drift <= 3:
+                        rep.note("%s: scenario %s (%s): completion channels %s are not among the specification's outcomes %s (sent to the monitor)" % (
+                            sub, sc.get("tag"), sc["ctx"], got, sorted(admits)[:4]))
             os.remove(r[0])
     n = _validate(ctx, rep, sub, "realtime", merged, scn_by_id={x["id"]: x for x in scns})
     rep.note("%s: %d scenarios x {io_epoll_context, io_uring_context}: %d executions, %d discarded for timing (fence later than 5 ms before T0) and "
